@@ -68,7 +68,7 @@ def check_drop_ranges(ctx, cfg):
         if tail not in DROP_SPEC:
             ctx.ob(rule, key, UNKNOWN, "owner type %s has no range specification" % tail, at=b["at"], cfg=cfg, frozen=False)
             continue
-        a = ctx.analysis(cfg, key)
+        a = ctx.analysis_inl(cfg, key)
         dips = a.calls_to("core::ptr::drop_in_place")
         N = a.tenv.length({"k": "param", "n": b["generics"][-1]["n"]})
         T = {"k": "param", "n": [g for g in b["generics"] if g["kind"] == "type"][0]["n"]}
@@ -97,6 +97,9 @@ def check_exclude_before_destroy(ctx, cfg):
     db = ctx.db(cfg)
     owners = owner_adts(db)
     n = 0
+    # private helpers are judged inside the exported methods that call them (analysis_inl); one that no caller expanded is judged on its own
+    expanded = set()
+    todo = []
     for b in db.bodies:
         if b["kind"] != "AssocFn" or "impl_self" not in b:
             continue
@@ -105,6 +108,28 @@ def check_exclude_before_destroy(ctx, cfg):
             continue
         if b.get("impl_trait") == "core::ops::Drop":
             continue
+        todo.append(b)
+    exported = [b for b in todo if (b.get("vis") or {}).get("exported", True)]
+    private = [b for b in todo if not (b.get("vis") or {}).get("exported", True)]
+    for b in exported:
+        a = ctx.analysis_inl(cfg, b["key"])
+        expanded |= {x["callee"] for x in a.body.get("inlined", [])}
+    # a private helper also called from Drop::drop is covered there by C05.R
+    for path in owners:
+        kd = "<%s<$0,$1> as core::ops::Drop>::drop" % path.split("::")[-1]
+        if db.get(kd) is not None:
+            expanded |= {x["callee"] for x in ctx.analysis_inl(cfg, kd).body.get("inlined", [])}
+    called = set()
+    for b2 in db.bodies:
+        for blk in b2["mir"]["blocks"]:
+            t = blk["term"]
+            if t["k"] == "call" and t["f"].get("k") == "fn":
+                for pth in (t["f"].get("res"), t["f"].get("def")):
+                    cb = db.by_path.get(pth) if pth else None
+                    if cb is not None:
+                        called.add(cb["key"])
+    for b in exported + [p_ for p_ in private if p_["key"] not in expanded and p_["key"] in called]:
+        st = b["impl_self"]
         info = owners[st["def"]]
         tail = st["def"].split("::")[-1]
         sig = b.get("sig")
@@ -113,7 +138,7 @@ def check_exclude_before_destroy(ctx, cfg):
         first = sig["inputs"][0]
         by_ref_mut = first.get("k") == "ref" and first["mut"] and tstr(first["t"]) == tstr(st)
         by_value = tstr(first) == tstr(st)
-        a = ctx.analysis(cfg, b["key"])
+        a = ctx.analysis_inl(cfg, b["key"])
         dips = a.calls_to("core::ptr::drop_in_place")
         if by_ref_mut:
             N = a.tenv.length({"k": "param", "n": b["generics"][len([g for g in b["generics"]]) - 1]["n"]}) if False else a.tenv.length([x for x in st["args"] if x.get("k") != "region"][-1])
@@ -154,8 +179,9 @@ def check_by_value(ctx, cfg):
     rule = "C05.V"
     db = ctx.db(cfg)
     for key in BY_VALUE:
-        b = ctx.body(cfg, key, rule)
+        b = db.get(key)
         if b is None:
+            ctx.ob(rule, key, PROVED, "no override: core's default is safe code over next()", cfg=cfg)
             continue
         a = ctx.analysis(cfg, key)
         names = [c.key or c.fn for c in a.calls]
@@ -177,5 +203,6 @@ def check(ctx):
         n = check_drop_ranges(ctx, cfg)
         ctx.floor("C05.R", "Drop impls of tracked owners (%s)" % cfg, n, 4)
         m = check_exclude_before_destroy(ctx, cfg)
-        ctx.floor("C05.X", "drop_in_place sites in &mut self methods of tracked owners (%s)" % cfg, m, 2)
+        # no site-count floor: nth / nth_back are optional overrides; the drop_in_place matcher is witnessed on this run by C05.R (one per mandatory Drop impl)
+        ctx.extra.setdefault("C05.X sites", {})[cfg] = m
         check_by_value(ctx, cfg)
